@@ -1,8 +1,9 @@
 #!/usr/bin/env python3
 """Confirms sub-agent-produced seeded defects in a scratch worktree and files them under /verif/seeded/.
-Usage: confirm_seeds.py [/tmp/seed]   (only needed when new seeds were produced)"""
+Usage: confirm_seeds.py [/tmp/seed [name-suffix]]   (only needed when new seeds were produced)"""
 import json, os, shutil, subprocess, sys
 SRC = sys.argv[1] if len(sys.argv) > 1 else "/tmp/seed"
+SUFFIX = sys.argv[2] if len(sys.argv) > 2 else ""
 ENV = dict(os.environ, GOFLAGS="-mod=mod", GOPROXY="off", GOSUMDB="off", GOTOOLCHAIN="local")
 WT = "/root/vscratch/confirm"
 def sh(cmd, cwd=None, timeout=900):
@@ -20,7 +21,7 @@ for pid in sorted(os.listdir(SRC)):
         if not os.path.isfile(os.path.join(d, "patch.diff")):
             continue
         meta = json.load(open(os.path.join(d, "meta.json")))
-        name = f"{pid}{var}"
+        name = f"{pid}{var}{SUFFIX}"
         fresh()
         demo_dst = os.path.join(WT, meta["demo_dir"], f"zz_seed_{name.lower()}_test.go")
         shutil.copy(os.path.join(d, "demo_test.go"), demo_dst)
@@ -45,7 +46,7 @@ for pid in sorted(os.listdir(SRC)):
             meta["demo_failure_excerpt"] = out1[-1500:]
             json.dump(meta, open(os.path.join(dst, "meta.json"), "w"), indent=1)
         else:
-            open(f"/tmp/seed/{pid}/out/{var}/REJECT.log", "w").write(out0 + outa + outb + outs + out1)
+            open(f"{SRC}/{pid}/out/{var}/REJECT.log", "w").write(out0 + outa + outb + outs + out1)
         results.append((name, ok))
 sh(f"git -C /repo worktree remove --force {WT}")
 print(sum(1 for _, ok in results if ok), "confirmed of", len(results))
